@@ -66,7 +66,7 @@ set_option hygiene false in
 macro "tokjob" : tactic =>
   `(tactic| (
       obtain ⟨x1, x2, x3, x4, x4', x5, x6, x7, x8⟩ := ht.jobs j hj
-      obtain ⟨h0, hn0, hn0b, hn1, hn2, h1, h2, h3, h4, h5, h6, h7, h8, h9, h10, hrec, hnf, hrd, h11, h12, h13, h14⟩ := hso
+      obtain ⟨h0, hn0, hn0b, hn0c, hn1, hn2, h1, h2, h3, h4, h5, h6, h7, h8, h9, h10, hrec, hnf, hrd, h11, h12, h13, h14⟩ := hso
       generalize s.job j = b at *
       obtain ⟨kind, pc, payload, snap, inputs, trivial, todoIn, out, edit, csnap, newVer, prev, prevZero, nfRead, dlist, live, todoDel⟩ := b
       simp only at hpc
@@ -117,9 +117,10 @@ theorem tok_snapGetReader {cfg : Cfg} {s : St} (i f : Nat) (keep : Bool) (ht : T
   exact tok_frame ht a b c d (by omega) f' g h
 
 theorem tok_jstep {cfg : Cfg} {s s' : St} {j : Nat} (hm : MergerOk cfg.merge) (hcl : cfg.cloneLocked = true) (hpf : cfg.pendFirst = true)
+    (hlf : cfg.listFirst = true)
     (hs : Safe s) (ht : TokInv cfg s) (hst : jstep cfg s j = some s') : TokInv cfg s' := by
   unfold jstep at hst
-  simp only [hpf, ↓reduceIte] at hst
+  simp only [hpf, hlf, ↓reduceIte] at hst
   split at hst
   case isFalse => cases hst
   case isTrue hj =>
@@ -315,10 +316,11 @@ theorem tok_jstep {cfg : Cfg} {s s' : St} {j : Nat} (hm : MergerOk cfg.merge) (h
       exact tok_frame h1 rfl rfl rfl rfl (Nat.le_refl _) rfl rfl rfl
   case h_27 hpc => cases hst
   case h_28 hpc => exact absurd hpc hso.notCreatedU
+  case h_29 hpc => exact absurd hpc hso.notLiveL
 
 
 theorem tok_step {cfg : Cfg} {s s' : St} {a : Act} (hm : MergerOk cfg.merge) (hcl : cfg.cloneLocked = true) (hpf : cfg.pendFirst = true)
-    (hs : Safe s) (ht : TokInv cfg s) (hst : step cfg s a = some s') : TokInv cfg s' := by
+    (hlf : cfg.listFirst = true) (hs : Safe s) (ht : TokInv cfg s) (hst : step cfg s a = some s') : TokInv cfg s' := by
   cases a with
   | acquire =>
     simp only [step] at hst; cases hst
@@ -351,7 +353,7 @@ theorem tok_step {cfg : Cfg} {s s' : St} {a : Act} (hm : MergerOk cfg.merge) (hc
     · cases hst; exact tok_frame ht rfl rfl rfl rfl (Nat.le_refl _) rfl rfl rfl
     · cases hst
   | spawn k p => simp only [step] at hst; cases hst; exact tok_spawn k p ht
-  | jstep j => exact tok_jstep hm hcl hpf hs ht hst
+  | jstep j => exact tok_jstep hm hcl hpf hlf hs ht hst
   | cleanup fs =>
     simp only [step] at hst
     split at hst
@@ -372,13 +374,18 @@ theorem tok_step {cfg : Cfg} {s s' : St} {a : Act} (hm : MergerOk cfg.merge) (hc
     split at hst
     · cases hst; exact tok_frame ht rfl rfl rfl rfl (Nat.le_refl _) rfl rfl rfl
     · cases hst
+  | env df dv =>
+    simp only [step] at hst
+    split at hst
+    · cases hst; exact tok_frame ht rfl rfl rfl rfl (Nat.le_add_right _ _) rfl rfl rfl
+    · cases hst
 
 theorem tok_reachable {cfg : Cfg} {v0 f0 : Nat} {s : St} (hm : MergerOk cfg.merge) (hr : cfg.recheck = true)
     (hcl : cfg.cloneLocked = true) (hal : cfg.allocLocked = true) (hfe : cfg.findErrReleases = false)
     (hpf : cfg.pendFirst = true) (hcc : cfg.closeCAS = true) (hga : cfg.getReaderAtomic = true)
-    (h : Reachable cfg v0 f0 s) : TokInv cfg s := by
+    (hlf : cfg.listFirst = true) (h : Reachable cfg v0 f0 s) : TokInv cfg s := by
   induction h with
   | init => exact tok_init cfg v0 f0
-  | step a hreach hst ih => exact tok_step hm hcl hpf (safe_reachable hr hcl hal hfe hpf hcc hga hreach) ih hst
+  | step a hreach hst ih => exact tok_step hm hcl hpf hlf (safe_reachable hr hcl hal hfe hpf hcc hga hlf hreach) ih hst
 
 end LinVerif.Lemmas.C02
